@@ -6,6 +6,13 @@ import Nstd.Life.Spec
 -/
 namespace Nstd.Life
 
+/-- (generates the equation lemmas of `exec'` once, in the common ancestor of all lemma files) -/
+theorem exec'_anchor (st : State) (a b : Nat) (h : (exec' st (.aSwap a b)).isSome = true) : (st.arrs a).alive = true := by
+  simp only [exec'] at h
+  cases ha : (st.arrs a).alive with
+  | true => rfl
+  | false => simp [ha] at h
+
 def chkOf (st : State) : Chk :=
   ⟨fun l => (st.mem l).isSome, st.blk, fun b => decide (b < st.next)⟩
 
@@ -430,6 +437,44 @@ theorem SInv.dead_of_unowned {st : State} (h : SInv st) (b i f : Nat) (hb : st.b
       have := h.store_blk a s h1
       rw [← h3.1, hb] at this; cases this
     · cases h3
+
+/-- a resolved source operand designates the caller's temporary or a live object and yields a payload -/
+theorem resolve_live {st : State} (h : SInv st) (r : SrcRef) (l : Option Loc) (p : Option Nat)
+    (hr : resolve st r = some (l, p)) : p.isSome = true ∧ ∀ s, l = some s → SrcLive st s := by
+  cases r with
+  | ext q =>
+    simp only [resolve, SrcRef.loc, SrcRef.payload, Option.some.injEq, Prod.mk.injEq] at hr
+    obtain ⟨rfl, rfl⟩ := hr
+    exact ⟨rfl, fun s hs => Or.inl (by cases hs; rfl)⟩
+  | inplace q =>
+    simp only [resolve, SrcRef.loc, SrcRef.payload, Option.some.injEq, Prod.mk.injEq] at hr
+    obtain ⟨rfl, rfl⟩ := hr
+    exact ⟨rfl, fun s hs => by cases hs⟩
+  | item c j f =>
+    simp only [resolve, SrcRef.loc, SrcRef.payload] at hr
+    by_cases hf : f ∈ c.k.fields
+    · simp only [hf, if_true] at hr
+      cases hj : (st.nodes c).items[j]? with
+      | none => simp [hj] at hr
+      | some it =>
+        simp only [hj, Option.map_some, Option.some.injEq, Prod.mk.injEq] at hr
+        obtain ⟨rfl, rfl⟩ := hr
+        have hmem : it ∈ (st.nodes c).items := List.mem_of_getElem? hj
+        have hl := h.items_live c it f hmem hf
+        exact ⟨hl, fun s hs => Or.inr (by cases hs; exact hl)⟩
+    · simp [hf] at hr
+  | elem a j =>
+    simp only [resolve, SrcRef.loc, SrcRef.payload] at hr
+    cases hs : (st.arrs a).store with
+    | none => simp [hs] at hr
+    | some s =>
+      simp only [hs] at hr
+      by_cases hj : j < (st.arrs a).size
+      · simp only [hj, if_true, Option.some.injEq, Prod.mk.injEq] at hr
+        obtain ⟨rfl, rfl⟩ := hr
+        have hl := h.elems_live a s j hs hj
+        exact ⟨hl, fun s' hs' => Or.inr (by cases hs'; exact hl)⟩
+      · simp [hj] at hr
 
 /-- a state that differs only in payloads (same containers, blocks, liveness) keeps the invariant -/
 theorem SInv.of_same_live {st st' : State} (h : SInv st) (hn : st'.nodes = st.nodes) (ha : st'.arrs = st.arrs)
